@@ -64,13 +64,14 @@ def build(case):
     mat_mode = {m: ['all', 'some', 'none'][int(rng.integers(0, 3))] for m in ('wm', 'similar', 'wmi')}
     tsv_mode = {t: ['all', 'some', 'none'][int(rng.integers(0, 3))] for t in TSVS}
     dt_ind = ['int32', 'uint32', 'int64', 'mixed'][int(rng.integers(0, 4))]
+    many_spikes = bool(rng.random() < 0.02)      # size: thousands of spikes per probe
     big = int(rng.integers(0, max(1, k - 1))) if (k >= 2 and rng.random() < 0.06) else -1   # a non-last probe with > 64 templates
     specs = []
     for p in range(k):
         def pick(mode):
             return mode == 'all' or (mode == 'some' and (p % 2 == 0))
         s = random_spec(rng, nc=int(rng.integers(2, 8)), nt=int(rng.integers(2, 7)) if p != big else int(rng.choice([70, 130])),
-                        nsw=nsw, ns=int(rng.integers(4, 60)),
+                        nsw=nsw, ns=int(rng.integers(4, 60)) if not many_spikes else int(rng.integers(3000, 6000)),
                         rate=rate, n_samples=n_samples, clusters=['same', 'curated'][int(rng.integers(0, 2))],
                         wm=pick(mat_mode['wm']), similar=pick(mat_mode['similar']), wmi_file=pick(mat_mode['wmi']),
                         features='sparse', tfeatures=True, nloc=2, tfeat_nloc=2,
